@@ -81,6 +81,8 @@ def shards(plan, extra=()):
         elif e == 'args':
             for i in range(16):
                 out.append({'layer': 'args', 'i': i, 'k': 16})
+        elif e == 'order':
+            out.append({'layer': 'order'})
         elif e == 'samples':
             out.append({'layer': 'samples'})
     return out
@@ -111,6 +113,8 @@ def iter_docs(shard):
         for j, d in enumerate(args_docs()):
             if j % shard.get('k', 1) == shard.get('i', 0):
                 yield d
+    elif layer == 'order':
+        yield from order_docs()
     elif layer == 'samples':
         for path, text in sample_texts():
             yield text, None
@@ -283,6 +287,41 @@ def args_docs():
                               (('E', N.e, args, (('T', N.a),)),),
                               (('T', N.a), ('C', N.x, args, ()), ('T', N.o))):
                     yield gram.render(items), items
+
+
+# ---------------------------------------------------------------------------------------------
+# order layer: the same command name at different depths below successive siblings (find vs find_all[0])
+
+def order_docs():
+    import itertools
+    a = alpha('full')
+    N = a.N
+    leaf = ('C', N.x, (), ())
+
+    def wrap(kind, inner):
+        if kind == 'g':
+            return ('G{', (inner,))
+        if kind == 'c':
+            return ('C', N.y, (('G{', (inner,)),), ())
+        if kind == 'e':
+            return ('E', N.e, (), (inner,))
+        return ('M', '$', (inner,))
+    chains = [()]
+    for d in (1, 2, 3):
+        chains += list(itertools.product('gce$', repeat=d)) if d < 3 else [('g', 'g', 'g'), ('c', 'e', 'g'), ('e', 'c', 'c')]
+
+    def build(chain):
+        n = leaf
+        for k in reversed(chain):
+            n = wrap(k, n)
+        return n
+    for c1 in chains:
+        for c2 in chains:
+            items = (build(c1), ('T', N.o), build(c2))
+            yield gram.render(items), items
+            if len(c1) + len(c2) <= 3:
+                items = (build(c1), ('T', N.o), build(c2), ('T', N.o), build(c1))
+                yield gram.render(items), items
 
 
 # ---------------------------------------------------------------------------------------------
